@@ -519,6 +519,21 @@ def judge_runtime(R, S, tier, seed, props, given=None):
         R.violation("runtime runs impossible: " + err, {"kind": "correspondence-broken", "correspondence": "rendered package + generated injectors compile", "detail": err})
         return 0, 0
     stats = collections.Counter()
+    # a run that did not return within its time limit is repeated once, alone, with a four times longer limit before it
+    # counts as a hang (a loaded machine must not turn into a verdict)
+    results = list(results)
+    for idx, (sp, rs) in enumerate(zip(specs, results)):
+        if not rs.get("Returned") and not rs.get("Panic") and S["E"].runner:
+            if sp["kind"] == "cancel" and PC.k_conditions(PC.parse_edump(S["model"][sp["k"]]))["K7"]:
+                continue        # the recorded finding K7: these do hang
+            clean = {k2: v for k2, v in sp.items() if k2 in ("Name", "Fail", "DelayIn", "CancelOn", "Hold")}
+            clean["Timeout"] = 4 * int(sp.get("Timeout") or 3000)
+            again, _ = S["E"].run_specs([clean], timeout=120)
+            if again and again[0].get("Returned"):
+                results[idx] = again[0]
+                stats["slow-run-repeated"] += 1
+    if given is None:
+        S["runtime"] = (specs, results, err)
     for sp, rs in zip(specs, results):
         k = sp["k"]; line = S["E"].decls[k]
         ret, provs = G.parse_decl(line)
